@@ -610,7 +610,7 @@ func genC11(t *rapid.T) *c11Case {
 		}
 		return sessAction{Op: op, Arg: arg}
 	})
-	c.Actions = append(c.Actions, rapid.SliceOfN(ag, 1, 10).Draw(t, "actions")...)
+	c.Actions = append(c.Actions, rapid.SliceOfN(ag, 1, 7).Draw(t, "actions")...)
 	return c
 }
 
